@@ -63,3 +63,13 @@ Section AllWireTypes.
 End AllWireTypes.
 Print Assumptions C12_all_types_round_trip.
 Print Assumptions C12_all_types_truncation_fails.
+
+(* ristretto scalars (32 bytes, canonical) and plaintexts (30 bytes) are codecs in the same sense, so the four generic
+   consequences above hold for them; ristretto points are 32 fixed bytes whose round trip is RFC 9496 ENCODE/DECODE,
+   executed by the model and tied to curve25519-dalek on every check, not proved *)
+From Strand Require Import Model.Ristretto Model.RBackend Proofs.RistrettoWireP.
+Theorem C12_ristretto_scalars_and_plaintexts :
+  RT (fun x => 0 <= x < ell) sc_to_bytes rd_RX /\ PF (fun x => 0 <= x < ell) sc_to_bytes rd_RX /\
+  RT (fun m : bytes => length m = 30%nat) (fun m => m) rd_RP /\ PF (fun m : bytes => length m = 30%nat) (fun m => m) rd_RP.
+Proof. exact (conj rt_RX (conj pf_RX (conj rt_RP pf_RP))). Qed.
+Print Assumptions C12_ristretto_scalars_and_plaintexts.
